@@ -223,4 +223,13 @@ def stepJtR {κ γ : Type} (sem : CSel κ γ → CorrSem α) (cs : List (CSel κ
     | some c => JtR (res j).1 (res j).2.1 (fun i => applyCorr (sem c) (res j).2.1 ((res j).2.2.1 i) ((res j).2.2.2 i)) l
     | none => k 0
 
+/-- entry `(l, m)` of `J'ᵀ J'` of the stacked system (the matrix LM builds as `J.T @ J` before clamping / damping, and the normal
+matrix of the system GN hands to its solver); same conventions as `stepJtR` (pass 10) -/
+def stepJtJ {κ γ : Type} (sem : CSel κ γ → CorrSem α) (cs : List (CSel κ γ)) (nres : Nat)
+    (res : Nat → Nat × Nat × (Nat → Nat → α) × (Nat → Nat → Nat → α)) (l m : Nat) : α :=
+  sumN nres fun j =>
+    match stepCorrector cs j with
+    | some c => JtJ (res j).1 (res j).2.1 (fun i => applyCorr (sem c) (res j).2.1 ((res j).2.2.1 i) ((res j).2.2.2 i)) l m
+    | none => k 0
+
 end PP.Corrector
